@@ -106,6 +106,35 @@ theorem copy_chk (cfg : Cfg) (s : State) (w : Who) (bk : Bucket) (b k sb sk : By
         · exact ⟨bk, hb, hdst⟩
         · exact ⟨sbk, hsb, hnone⟩
 
+/-- **The source half of a copy is decided for the source KEY, whatever version of it the request
+names**: when the caller may write the destination but is refused `s3:GetObject` on the source key,
+CopyObject answers that refusal and changes nothing, for every version id in the copy source (the
+defect repaired by 9e8e2c2 decided for the resource `key?versionId=id`). -/
+theorem copy_source_refused_any_version (cfg : Cfg) (hro : cfg.readonly = false) (s : State) (w : Who) (now : Int)
+    (bk sbk : Bucket) (b k sb sk : Bytes) (e : String)
+    (hnr : w.isRoot = false) (hna : (w.role == .admin) = false)
+    (hb : findBucket s b = some bk) (hsb : findBucket s sb = some sbk)
+    (hdst : verifyAccess cfg bk w .write actPutObject k = none)
+    (hsrc : verifyAccess cfg sbk w .read actGetObject sk = some e) :
+    ∀ (svid : Bytes) (rep : Option PutSpec) (nv : Bytes),
+      handle cfg s w now (.copyObject sb sk svid b k rep nv) = (s, errR e) := by
+  intro svid rep nv
+  simp only [handle, withBucket, hb, hro, hnr, hna, hdst, hsb, hsrc, guarded, Bool.or_self,
+    Bool.false_eq_true, if_false]
+
+/-- the same for UploadPartCopy. -/
+theorem partcopy_source_refused_any_version (cfg : Cfg) (hro : cfg.readonly = false) (s : State) (w : Who) (now : Int)
+    (bk sbk : Bucket) (b k id sb sk : Bytes) (num : Nat) (e : String)
+    (hnr : w.isRoot = false) (hna : (w.role == .admin) = false)
+    (hb : findBucket s b = some bk) (hsb : findBucket s sb = some sbk)
+    (hdst : verifyAccess cfg bk w .write actPutObject k = none)
+    (hsrc : verifyAccess cfg sbk w .read actGetObject sk = some e) :
+    ∀ (svid : Bytes) (range : Option (Nat × Nat)) (etag : Bytes),
+      handle cfg s w now (.uploadPartCopy b k id num sb sk svid range etag) = (s, errR e) := by
+  intro svid range etag
+  simp only [handle, withBucket, hb, hro, hnr, hna, hdst, hsb, hsrc, guarded, Bool.or_self,
+    Bool.false_eq_true, if_false]
+
 /-- **Success implies every requirement was granted.** For every caller that is neither root nor
 an admin (those are exempt by design), every state and every operation: if the answer is a
 success, then each (action, resource) the specification table demands was granted by
@@ -197,5 +226,13 @@ def bkt : Bucket := { name := [98], acl := ⟨[114], []⟩, policy := some pol }
 example : verifyAccess {} bkt ⟨[117], false, .user⟩ .read actGetObject [107] = none := by decide
 example : verifyAccess {} bkt ⟨[117], false, .user⟩ .read actGetObject [108] = some "AccessDenied" := by decide
 example : verifyAccess {} bkt ⟨[118], false, .user⟩ .read actGetObject [107] = some "AccessDenied" := by decide
+
+/-- non-vacuity of `copy_source_refused_any_version`: user `u` may write `b/d` and read `b/k`, not `b/s`;
+copying `b/s` (any version) to `b/d` is refused, copying `b/k` is not refused for access. -/
+def pol2 : Policy := ⟨2, [⟨true, [[117]], [actGetObject], [[98, 47, 107]]⟩, ⟨true, [[117]], [actPutObject], [[98, 47, 100]]⟩]⟩
+def bkt2 : Bucket := { name := [98], acl := ⟨[114], []⟩, policy := some pol2 }
+example : verifyAccess {} bkt2 ⟨[117], false, .user⟩ .write actPutObject [100] = none ∧
+    verifyAccess {} bkt2 ⟨[117], false, .user⟩ .read actGetObject [115] = some "AccessDenied" ∧
+    verifyAccess {} bkt2 ⟨[117], false, .user⟩ .read actGetObject [107] = none := by decide
 
 end Vgw.Props.C03
